@@ -976,7 +976,7 @@ def run(ctx):
         rule="seeded inputs (small dyadic rationals, the same scaled by 2^k, generic doubles), non-degenerate simplices "
              "(|det| >= 1e-3 x product of edge norms), query points built from barycentric coordinates inside / outside / next "
              "to faces, dims 1-5; non-trivial = distinct protocol-line sequence (correspondence) / oracle item that reached a check",
-        samples=[cases[0]["lines"][:4]],
+        samples=[c["lines"][:4] for c in cases[:1]],
         evaluations=len(cases) + len(results), distinct=len(corr.distinct) + sum(1 for r in results if r["rows"]),
         explanation="Gen/Prims.lean is regenerated from the repository source by harness/translate.py on every run; the theorems of "
                     "Props/C20.lean are about those definitions, the driver evaluates the same definitions at Float and every "
